@@ -126,9 +126,14 @@ fn find_entry(t: &[Triple], q: u128) -> Option<Triple> {
     t.get(lo).copied().filter(|e| e.1 <= q && q < e.1 + e.2)
 }
 
+thread_local! {
+    /// every quantile is checked if `2^P` is at most this (raised by the conversion matrix)
+    static FULL_SWEEP_LIMIT: std::cell::Cell<u128> = std::cell::Cell::new(4096);
+}
+
 fn sample_quantiles(rng: &mut Rng, p: u32, t: &[Triple]) -> Vec<u128> {
     let total = pow2(p);
-    if total <= 4096 {
+    if total <= FULL_SWEEP_LIMIT.with(|l| l.get()) {
         return (0..total).collect();
     }
     let mut v = vec![0, total - 1, total / 2];
@@ -245,18 +250,27 @@ fn check_model(rng: &mut Rng, rep: &mut Report, desc: &str, b: u32, p: u32, m: &
     }
     // decoder view
     if guarded(|| m.dec(0).is_some()).unwrap_or(true) {
+        // C10 (model half): for every quantile below 2^P -- the last bin and P == BITS
+        // included -- `quantile_function` returns, without panicking, an in-support symbol
+        // whose bin contains the quantile.  Every such evaluation counts for `prop` and C10.
+        rep.count(&format!("C10.dec.{}.b{}.{}", m.kind(), b, if p == b { "P=B" } else { "P<B" }));
         for q in sample_quantiles(rng, p, &t) {
             rep.eval(prop);
+            rep.eval("C10");
             let r = match guarded(|| m.dec(q).unwrap()) {
                 Ok(r) => r,
                 Err(class) => {
                     cat_fail(rep, prop, format!("{} | dec {:x} => {}", desc, q, class));
+                    cat_fail(rep, "C10", format!("{} | dec {:x} => {} (quantile_function must be total below 2^P)", desc, q, class));
                     break;
                 }
             };
             let want = find_entry(&t, q);
             if Some(r) != want {
                 cat_fail(rep, prop, format!("{} | dec {:x} => {} but the table says {:?}", desc, q, show_triple(&r), want.map(|w| show_triple(&w))));
+                let inside = t.iter().any(|e| e.0 == r.0) && r.1 <= q && q < r.1.saturating_add(r.2);
+                cat_fail(rep, "C10", format!("{} | dec {:x} => {} {} (the model's bin for this quantile is {:?})", desc, q, show_triple(&r),
+                    if inside { "is a bin of another shape than the model's" } else { "is not an in-support symbol whose bin contains the quantile" }, want.map(|w| show_triple(&w))));
                 break;
             }
         }
@@ -317,6 +331,7 @@ fn check_conversions(rng: &mut Rng, rep: &mut Report, desc: &str, b: u32, p: u32
                     continue;
                 }
                 rep.count(&format!("C05.conv.{}.{}", m.kind(), op));
+                rep.count(&format!("C05.cell.{}.{}.b{}.{}", m.kind(), op, b, if p == b { "P=B" } else { "P<B" }));
                 let d = format!("{} | {}", desc, op);
                 check_model(rng, rep, &d, b, p, n.as_ref(), Some(t), "C05");
                 if depth > 1 {
@@ -602,6 +617,10 @@ fn oracle_uniform(rng: &mut Rng, rep: &mut Report, b: u32, p: u32, range: usize,
                     }
                     for q in [want_c, want_c + want_p - 1] {
                         let d = guarded(|| m.dec(q).unwrap()).unwrap_or((usize::MAX, 0, 0));
+                        rep.eval("C10");
+                        if d != (s, want_c, want_p) {
+                            cat_fail(rep, "C10", format!("{} | dec {:x} => {} is not the in-support symbol whose bin contains the quantile ({:x}:{:x}:{:x})", desc, q, show_triple(&d), s, want_c, want_p));
+                        }
                         if d != (s, want_c, want_p) {
                             cat_fail(rep, "C03", format!("{} | dec {:x} => {} expected {:x}:{:x}:{:x}", desc, q, show_triple(&d), s, want_c, want_p));
                         }
@@ -743,13 +762,18 @@ where
             }
             Ok(())
         });
-        for prop in ["C03", "C05"] {
+        for prop in ["C03", "C05", "C10"] {
             rep.eval(prop);
         }
         rep.count(&format!("C05.symbol_type.{}", name));
         match r {
             Ok(Ok(())) => {}
-            Ok(Err(e)) => cat_fail(rep, "C05", format!("{} => {}", desc, e)),
+            Ok(Err(e)) => {
+                if e.contains(": dec ") {
+                    cat_fail(rep, "C10", format!("{} => {}", desc, e));
+                }
+                cat_fail(rep, "C05", format!("{} => {}", desc, e))
+            }
             Err(class) => cat_fail(rep, "C05", format!("{} => {}", desc, class)),
         }
         let _ = lookup;
@@ -790,18 +814,56 @@ macro_rules! oracle_symbol_type_lookup {
                 Ok(())
             });
             $rep.eval("C05");
+            $rep.eval("C10");
             $rep.count(&format!("C05.symbol_type.{}.lookup", $name));
             match r {
                 Ok(Ok(())) => {}
-                Ok(Err(e)) => cat_fail($rep, "C05", format!("{} => {}", desc, e)),
+                Ok(Err(e)) => {
+                    if e.contains(": dec ") {
+                        cat_fail($rep, "C10", format!("{} => {}", desc, e));
+                    }
+                    cat_fail($rep, "C05", format!("{} => {}", desc, e))
+                }
                 Err(class) => cat_fail($rep, "C05", format!("{} => {}", desc, class)),
             }
         }
     }};
 }
 
+/// conversion matrix: every source representation x every conversion path (two levels) at
+/// every compiled (B, P), P == B in particular; all quantiles up to P = 16 for the first table
+fn oracle_matrix(rng: &mut Rng, rep: &mut Report, thorough: bool) {
+    for &(b, ps) in BPS {
+        for &p in ps {
+            for kind in KINDS {
+                if b >= 32 && kind.contains("lookup") {
+                    continue;
+                }
+                let reps = if thorough { 6 } else { 3 };
+                for r in 0..reps {
+                    let maxn = pow2(p).min(match r { 0 => 2, 1 => 7, _ => 60 });
+                    let n = if maxn <= 2 { 2 } else { 2 + rng.below(maxn - 1) as usize };
+                    let probs = random_table(rng, p, n);
+                    FULL_SWEEP_LIMIT.with(|l| l.set(if r == 1 { 65536 } else { 4096 }));
+                    oracle_valid(rng, rep, b, p, kind, &probs, r % 2 == 1, 2);
+                    FULL_SWEEP_LIMIT.with(|l| l.set(4096));
+                    rep.count(&format!("C05.matrix.{}.b{}.{}", kind, b, if p == b { "P=B" } else { "P<B" }));
+                }
+            }
+            let t = pow2(p);
+            for range in [2u128, t.min(37), 2 + rng.below(t.min(300) - 1)] {
+                FULL_SWEEP_LIMIT.with(|l| l.set(65536));
+                oracle_uniform(rng, rep, b, p, range as usize, true);
+                FULL_SWEEP_LIMIT.with(|l| l.set(4096));
+                rep.count(&format!("C05.matrix.uniform.b{}.{}", b, if p == b { "P=B" } else { "P<B" }));
+            }
+        }
+    }
+}
+
 pub fn oracle(rng: &mut Rng, tier: &str, rep: &mut Report) {
     let thorough = tier == "thorough";
+    oracle_matrix(rng, rep, thorough);
 
     // ---- non-usize symbol types ------------------------------------------------------------
     let to_i16 = |l: usize| (l as i64 - 3000) as i16;
